@@ -38,16 +38,18 @@ def container_type(rng, depth):
 
 
 _LIB_IDS = None
+_HOT_IDS = None
 
 
 def library_identifiers():
     """parameter names of the functions on the library's own call path from a decoded method call to the subscribers (read from the
     current source with `ast`): legal argument names of a .def method that would collide with a careless `**kwargs` pass-through"""
-    global _LIB_IDS
+    global _LIB_IDS, _HOT_IDS
     if _LIB_IDS is None:
         import ast
         from .. import common
         names = set()
+        hot = set()
         for rel in ('core/entity.py', 'core/entity_def/entity_description.py', 'core/entity_def/base_definition.py',
                     'core/network/player.py'):
             try:
@@ -59,8 +61,17 @@ def library_identifiers():
                     a = node.args
                     for x in a.posonlyargs + a.args + a.kwonlyargs + [y for y in (a.vararg, a.kwarg) if y]:
                         names.add(x.arg)
+                    if a.kwarg is not None:
+                        # a function that takes **kwargs: its own named parameters are the names a keyword argument can collide with
+                        hot.update(x.arg for x in a.args + a.kwonlyargs)
         _LIB_IDS = sorted(n for n in names if n.isidentifier() and not n.startswith('__'))
+        _HOT_IDS = sorted(n for n in hot if n.isidentifier() and not n.startswith('__'))
     return _LIB_IDS
+
+
+def hot_identifiers():
+    library_identifiers()
+    return _HOT_IDS or []
 
 
 def gen_defset(rng, n_entities=None, fault=None, simple_types=False, want_nested=False, force=()):
@@ -115,7 +126,10 @@ def gen_defset(rng, n_entities=None, fault=None, simple_types=False, want_nested
         args = [(('arg%d' % j) if named else None, type_ref()) for j in range(k)]
         if named and k and dice('libnames', 0.3) and library_identifiers():
             # argument names that are also parameter names inside the library (self, entity, name, args, ...)
-            picked = rng.sample(library_identifiers(), min(k, len(library_identifiers())))
+            hot_ = [h for h in hot_identifiers() if rng.random() < 0.7]
+            rng.shuffle(hot_)
+            rest = [x for x in library_identifiers() if x not in hot_]
+            picked = (hot_ + rng.sample(rest, min(k, len(rest))))[:k]
             args = [(nm, t) for nm, (_, t) in zip(picked, args)]
         return {'name': rng.choice(meth_pool), 'args': args, 'named': named,
                 'header': rng.choice([None, None, '1', '2', '2', 'garbage', 'nested', ' 2 ']),
